@@ -84,10 +84,10 @@ reg(id="C08", props="Props/C08.v", proof_files=["Proofs/TransportProofs.v", "Pro
          "the byte the descriptors ride on is known; judged against the specification encoding. non-trivial = the whole run invoked a handler",
     trusted_base=BE_TB, assumptions=BE_ASSUME + ["sender side: sendmsg accepts a prefix of the offered bytes or fails with an errno (oracle); "
                                                    "SCM_RIGHTS of a partially accepted sendmsg travel with its first byte"])
-reg(id="C01", props="Props/C01.v", proof_files=["Proofs/WireProofs.v", "Proofs/CodecProofs.v"], families=[Fe(), Be(), Tx()],
+reg(id="C01", props="Props/C01.v", proof_files=["Proofs/WireProofs.v", "Proofs/CodecProofs.v", "Proofs/TxSpecProofs.v"], families=[Fe(), Be(), Tx()],
     rule=FE_RULE + " || " + BE_RULE + " || family tx: every descriptor-carrying frontend request through a socket whose first sendmsg is refused (EAGAIN) or "
     "accepts k bytes: the descriptors must ride on the first byte that reaches the wire", trusted_base=FE_TB + BE_TB, assumptions=BE_ASSUME)
-reg(id="C02", props="Props/C02.v", proof_files=["Proofs/FeProofs.v", "Proofs/BeProofs.v", "Proofs/TableProofs.v", "Proofs/CodecProofs.v", "Proofs/E2EProofs.v"], families=[Sess(), Fe(), Be()],
+reg(id="C02", props="Props/C02.v", proof_files=["Proofs/FeProofs.v", "Proofs/BeProofs.v", "Proofs/TableProofs.v", "Proofs/CodecProofs.v", "Proofs/E2EProofs.v", "Proofs/TxSpecProofs.v"], families=[Sess(), Fe(), Be()],
     rule=SESS_RULE + " || " + FE_RULE + " || " + BE_RULE, trusted_base=FE_TB + BE_TB, assumptions=BE_ASSUME)
 reg(id="C03", props="Props/C03.v", proof_files=["Proofs/FeProofs.v", "Proofs/BeProofs.v"], families=[Sess(), Fe(), Be()],
     rule=SESS_RULE + " || " + FE_RULE + " || " + BE_RULE, trusted_base=FE_TB + BE_TB, assumptions=BE_ASSUME)
